@@ -1,4 +1,7 @@
 setup:
-	@python3 -c "import sys; sys.path.insert(0,'/verif'); import vx.gen, vx.main, vx.check; print('vx ok')"
+	@python3 -c "import sys; sys.path.insert(0,'/verif'); import vx.gen, vx.main, vx.check, vx.witness, vx.rules; print('vx ok')"
 	@verus --version >/dev/null && echo "verus ok"
 	@chmod +x /verif/vx.sh
+	@# optional pre-builds (everything below is rebuilt on demand by the checks if missing)
+	@cd /verif/witness && CARGO_NET_OFFLINE=true CARGO_TARGET_DIR=/var/tmp/vx-witness-target cargo build --offline --release >/dev/null 2>&1 && echo "witness (std) built" || echo "witness (std) not pre-built: built on demand"
+	@cd /verif/witness/nostd && CARGO_NET_OFFLINE=true CARGO_TARGET_DIR=/var/tmp/vx-witness-target cargo build --offline --release >/dev/null 2>&1 && echo "witness (alloc-only) built" || echo "witness (alloc-only) not pre-built: built on demand"
